@@ -184,6 +184,32 @@ func Mutations(data []byte, st *State, emit func(m Mutation) bool) {
 			}
 		}
 	}
+	// --- double reference through an extent: the overflow count of each reachable page raised by one, so that its extent
+	// swallows the page behind it - another reachable page (head or overflow: referenced twice) or a free page (reachable
+	// and free); which of the two is walked first depends on where the pages sit in the tree, so every page is tried ---
+	for _, p := range pages {
+		next := p.ID + uint64(p.Overflow) + 1
+		if next >= st.Meta.Pgid {
+			continue
+		}
+		class := ""
+		switch st.Use[next] {
+		case UseBranch, UseLeaf, UseOverflow:
+			class = "double-ref"
+		case UseFree:
+			if persisted {
+				class = "free-reachable"
+			}
+		}
+		if class == "" {
+			continue
+		}
+		img := clone(data)
+		le.PutUint32(img[p.ID*uint64(ps)+12:], p.Overflow+1)
+		if !emit(Mutation{class, fmt.Sprintf("%s page %d: overflow count %d -> %d (its extent now covers page %d, in use as %q)", p.Kind, p.ID, p.Overflow, p.Overflow+1, next, st.Use[next]), img}) {
+			return
+		}
+	}
 	// --- double reference: point each branch element / bucket root at each other referenced page ---
 	for _, p := range pages {
 		if p.Kind == UseBranch {
